@@ -177,12 +177,19 @@ def project_ring(buf, profile):
 
 
 # ------------------------------------------------------------------ subtrajectory buffers
+def st_reward(ep, t):
+    """reward tag of step t of episode ep: negative on odd steps (a query that takes absolute values in place,
+    or any other read-only call that writes, then shows in the stored / sampled rows)"""
+    v = 1000 + 64 * ep + t
+    return -v if t % 2 else v
+
+
 def st_values(ep, t, end):
     """add_sample arguments for step t of episode ep (D1 tags)."""
     return dict(
         observation=np.array([ep, t], dtype=float),
         action=float(64 * ep + t),
-        reward=float(1000 + 64 * ep + t),
+        reward=float(st_reward(ep, t)),
         next_observation=np.array([ep, t + 1], dtype=float),
         terminated=int(end == "term"),
         truncated=int(end == "trunc"),
@@ -193,7 +200,7 @@ def st_expected_fields(row):
     """Field values a model row [kind, ep, t, term, trunc] stands for."""
     ep, t = row["ep"], row["t"]
     if row["kind"] == "step":
-        return dict(observation=[ep, t], action=64 * ep + t, reward=1000 + 64 * ep + t, next_observation=[ep, t + 1],
+        return dict(observation=[ep, t], action=64 * ep + t, reward=st_reward(ep, t), next_observation=[ep, t + 1],
                     terminated=int(row["term"]), truncated=int(row["trunc"]))
     if row["kind"] == "extra":
         return dict(observation=[ep, t], action=64 * ep + t - 1, reward=0, next_observation=[ep, t],
@@ -215,7 +222,7 @@ def st_decode(fields):
         if a != 64 * ep + t - 1:
             raise Mismatch(f"successor row of episode {ep} carries a foreign action {a}")
         return {"kind": "extra", "ep": ep, "t": t, "term": bool(te), "trunc": bool(tr)}
-    if n != [ep, t + 1] or a != 64 * ep + t or r != 1000 + 64 * ep + t:
+    if n != [ep, t + 1] or a != 64 * ep + t or r != st_reward(ep, t):
         raise Mismatch(f"row mixes fields of different transitions: obs={o} next={n} action={a} reward={r}")
     return {"kind": "step", "ep": ep, "t": t, "term": bool(te), "trunc": bool(tr)}
 
